@@ -502,3 +502,58 @@ pub fn filler_request(proto: Proto, k: u32) -> Vec<u8> {
     let nonce: Vec<u8> = sha512(&[b"filler", &k.to_le_bytes()])[..proto.nonce_len()].to_vec();
     build_request(proto, &nonce, 1024, &[VER_DRAFT13], None)
 }
+
+/// Verifier for high-rate streams of replies: full strict verification once per distinct (SIG, SREP, CERT)
+/// triple, then only the per-reply parts (nonce echo, index, Merkle climb). Same verdicts as `verify_strict`.
+pub struct FastVerifier {
+    pk: Vec<u8>,
+    seen_ok: std::collections::HashSet<u64>,
+    pub full: u64,
+    pub fast: u64,
+}
+
+impl FastVerifier {
+    pub fn new(pk: &[u8]) -> Self {
+        FastVerifier { pk: pk.to_vec(), seen_ok: std::collections::HashSet::new(), full: 0, fast: 0 }
+    }
+
+    pub fn verify(&mut self, proto: Proto, request: &[u8], resp: &[u8]) -> Result<RespInfo, String> {
+        // cheap structural pass
+        let (info, m) = parse_response(proto, resp, true)?;
+        let mut h = std::collections::hash_map::DefaultHasher::new();
+        use std::hash::{Hash, Hasher};
+        (proto, &info.sig, &info.srep, &info.cert).hash(&mut h);
+        let key = h.finish();
+        if !self.seen_ok.contains(&key) {
+            self.full += 1;
+            let r = verify_strict(proto, request, resp, &self.pk)?;
+            if self.seen_ok.len() < 100_000 {
+                self.seen_ok.insert(key);
+            }
+            return Ok(r);
+        }
+        self.fast += 1;
+        let req = match classify_request(request) {
+            ReqClass::WellFormed(i) if i.proto == proto => i,
+            _ => return Err("request-not-of-this-protocol".into()),
+        };
+        match &info.nonc {
+            Some(n) if *n == req.nonce => {}
+            Some(_) => return Err("nonce-echo-differs".into()),
+            None => return Err("no-NONC".into()),
+        }
+        let w = proto.tree().width;
+        let path = m.get(rc::PATH).unwrap();
+        if path.len() % w != 0 || path.len() / w > 32 {
+            return Err("PATH-shape".into());
+        }
+        let depth = path.len() / w;
+        if depth < 32 && (info.index as u64) >> depth != 0 {
+            return Err("INDX-not-exhausted".into());
+        }
+        match climb(proto.tree(), info.index as u64, leaf_data(proto, request, &req.nonce), path) {
+            Some(r) if r == info.root => Ok(info),
+            _ => Err("merkle-root-mismatch".into()),
+        }
+    }
+}
